@@ -51,7 +51,7 @@ def stable_clause_id(oid):
     """identity used for the baseline comparison: contract-driven obligations only, without path ordinals"""
     base = oid.split("~")[0]
     kind = base.split("#")[1] if "#" in base else ""
-    if kind in ("post", "noraise", "raise", "lemma", "lemma-base", "lemma-step", "inv-entry", "inv-keep", "cover", "canary"):
+    if kind in ("post", "noraise", "raise", "lemma", "lemma-base", "lemma-step", "inv-entry", "inv-keep", "cover", "canary", "table", "after"):
         return base
     return None
 
